@@ -43,6 +43,12 @@ func (w *tw) nodes(ns []Node, depth int) {
 			w.loop(n.Loop, depth)
 		case n.Probe != nil:
 			w.probe(n.Probe)
+		case n.Set != nil:
+			t := `<template ` + n.Set.Name + `="` + n.Set.Val + `"></template>`
+			if n.Set.If != nil {
+				t = `<b data-m="` + n.Set.ID + `" v-if="` + n.Set.If.expr() + `">` + t + `</b>`
+			}
+			w.sb.WriteString(t)
 		case n.Inc != nil:
 			w.sb.WriteString(`<template include="comp.vuego"`)
 			for _, pr := range n.Inc.Props {
